@@ -4,6 +4,8 @@ CONSTANTS MaxLinks = 2
  Chunk = 4
  Read = 2
  Shapes = {1,3,6,10,14,15}
+ Damage = 0
+ Clamp = TRUE
  Trim = TRUE
 INVARIANT OpenSucceeds
 INVARIANT LinkTableIsTheTruth
